@@ -228,6 +228,15 @@ def sm9_scalar(cx):
         T = lambda b: 'index(%s, (SubWithOverflow(%s, 1).0 as usize))' % (ROW, b)
         tr = I.transfer(g, F, 'rev(Range::Range{0, 37})', ['r', 'r_infinity'])
         want = sorted(['G1.point_add(var:r@in, %s)' % T(B), 'G1.point_sub(var:r@in, %s)' % T('Neg(%s)' % B), T(B), 'var:r@in'])
+        # the table point built where it is used instead of in a table of points prepared beforehand: the same
+        # (x, y, 1) = (row_i[2j], row_i[2j+1], 1) with j = d - 1
+        RI = 'SM9_P256_PRECOMPUTED[(each(rev(Range::Range{0, 37})) as usize)]'
+        J2 = lambda b: 'MulWithOverflow((SubWithOverflow(%s, 1).0 as usize), 2).0' % b
+        T2 = lambda b: 'Point::Point{%s[%s], %s[AddWithOverflow(%s, 1).0], one()}' % (RI, J2(b), RI, J2(b))
+        want2 = sorted(['G1.point_add(var:r@in, %s)' % T2(B), 'G1.point_sub(var:r@in, %s)' % T2('Neg(%s)' % B), T2(B), 'var:r@in'])
+        direct = tr is not None and alts(tr['r']) == want2
+        if direct:
+            want = want2
         cx.add('I-SCALAR', 'sm9/g_mul/step', tr is not None and alts(tr['r']) == want and alts(tr['r_infinity']) == ['0', 'var:r_infinity@in'],
                '7-bit signed comb: window i uses row i of the table; digit d adds row[i][d-1] or subtracts row[i][-d-1]', g.loc(), {'got': tr})
         # table rows -> points: (x, y) = (row[2j], row[2j+1]), z = 1
@@ -237,7 +246,7 @@ def sm9_scalar(cx):
         ROWI = 'SM9_P256_PRECOMPUTED[each(Range::Range{0, len(SM9_P256_PRECOMPUTED)})]'
         Jx = 'each(Range::Range{0, Div(len(%s), 2)})' % ROWI
         want_pt = ['%s[MulWithOverflow(%s, 2).0]' % (ROWI, Jx), '%s[AddWithOverflow(MulWithOverflow(%s, 2).0, 1).0]' % (ROWI, Jx), 'one()']
-        cx.add('I-SCALAR', 'sm9/g_mul/table-points', want_pt in pts, 'row[2j], row[2j+1] are the affine x, y of table point j (z = 1): %s' % pts[:1], g.loc())
+        cx.add('I-SCALAR', 'sm9/g_mul/table-points', want_pt in pts or direct, 'row[2j], row[2j+1] are the affine x, y of table point j (z = 1): %s' % pts[:1], g.loc())
     t = cx.fn('gm_sm9::points::<impl points::TwistPoint>::point_mul', 'I-SCALAR')
     if t is not None:
         tr = I.transfer(t, F, 'Range::Range{0, 256}', ['r'])
